@@ -348,7 +348,7 @@ int main(int argc, char **argv) {
         alarm(60);
 
         if (!strcmp(c, "verbose")) { verbose = atoi(a[1]); out("ok"); }
-        else if (!strcmp(c, "spectree") || !strcmp(c, "specintl")) { out("ok"); }
+        else if (!strcmp(c, "spectree") || !strcmp(c, "specintl") || !strcmp(c, "nospace")) { out("ok"); }
         else if (!strcmp(c, "clock")) { pinned_clock = (time_t)atoll(a[1]); out("ok"); }
         else if (!strcmp(c, "heapfill")) { heapfill = atoi(a[1]); out("ok"); }
         else if (!strcmp(c, "stackfill")) { stackfill = atoi(a[1]); out("ok"); }
